@@ -1,5 +1,5 @@
 SPECIFICATION Spec
-CONSTANTS Kinds = {"DE", "DE2", "NM", "PW"}
+CONSTANTS Kinds = {"DE", "PW"}
   NP = 2
   MaxGen = 2
   MaxInst = 3
